@@ -917,6 +917,117 @@ def check_apply_state_writes(ctx, repo, mods, eng):
                     ctx.ok("R7", tag, "no in-place write into an object stored on self (%s)" % role, ctx.loc(k.module, fn), nontrivial=False)
 
 
+def _self_attr_stores(repo, c, entries, stop=()):
+    """{attr: [(ClassInfo, FunctionDef, node, guarded)]} for every ``self.<attr> = ...`` (also augmented / annotated / constant
+    ``setattr(self, name, ...)``) reachable from the methods ``entries`` of class ``c`` through ``self.m(...)`` / ``super().m(...)``
+    calls resolved along the MRO of ``c``.  Methods named in ``stop`` are not entered.  ``guarded``: the store sits under an ``if``
+    whose test reads the same attribute (lazy-cache idiom ``if self.x is None: self.x = ...``)."""
+    out, seen = {}, set()
+    stack = [(m, None) for m in entries]
+    while stack:
+        name, after = stack.pop()
+        hit = repo.lookup_method(c, name, after=after)
+        if hit is None or id(hit[1]) in seen:
+            continue
+        k, fn = hit
+        seen.add(id(fn))
+        parents = {}
+        for n in ast.walk(fn):
+            for ch in ast.iter_child_nodes(n):
+                parents[id(ch)] = n
+
+        def guarded(node, attr):
+            n = node
+            while id(n) in parents:
+                n = parents[id(n)]
+                if isinstance(n, ast.If):
+                    for y in ast.walk(n.test):
+                        if isinstance(y, ast.Attribute) and y.attr == attr and isinstance(y.value, ast.Name) and y.value.id == "self":
+                            return True
+                        if isinstance(y, ast.Constant) and y.value == attr:
+                            return True
+            return False
+
+        for n in ast.walk(fn):
+            if isinstance(n, ast.Call) and isinstance(n.func, ast.Attribute):
+                v = n.func.value
+                if isinstance(v, ast.Name) and v.id == "self" and n.func.attr not in stop:
+                    stack.append((n.func.attr, None))
+                elif isinstance(v, ast.Call) and isinstance(v.func, ast.Name) and v.func.id == "super" and n.func.attr not in stop:
+                    stack.append((n.func.attr, k))
+            if isinstance(n, ast.Call) and isinstance(n.func, ast.Name) and n.func.id == "setattr" and len(n.args) >= 2 \
+                    and isinstance(n.args[0], ast.Name) and n.args[0].id == "self" and isinstance(n.args[1], ast.Constant) \
+                    and isinstance(n.args[1].value, str):
+                out.setdefault(n.args[1].value, []).append((k, fn, n, guarded(n, n.args[1].value)))
+            tg = n.targets if isinstance(n, ast.Assign) else [n.target] if isinstance(n, (ast.AugAssign, ast.AnnAssign)) else []
+            for x in tg:
+                for y in ast.walk(x):
+                    if isinstance(y, ast.Attribute) and isinstance(y.ctx, ast.Store) and isinstance(y.value, ast.Name) and y.value.id == "self":
+                        out.setdefault(y.attr, []).append((k, fn, n, guarded(n, y.attr)))
+    return out
+
+
+def _renormalises(node, attr):
+    """``self.<attr> = f(self.<attr>, <constants>)``: the stored value is a function of the stored value only."""
+    if not isinstance(node, ast.Assign) or len(node.targets) != 1:
+        return False
+    callee = {id(n.func) for n in ast.walk(node.value) if isinstance(n, ast.Call)}
+    reads_own = False
+    for n in ast.walk(node.value):
+        if isinstance(n, ast.Name) and id(n) not in callee and n.id != "self":
+            return False
+        if isinstance(n, ast.Attribute) and isinstance(n.value, ast.Name) and n.value.id == "self":
+            if n.attr != attr:
+                return False
+            reads_own = True
+    return reads_own
+
+
+TRANSFORM_APPLY = ("transform", "inverse_transform")
+
+
+def check_apply_rebinds_fitted(ctx, repo, mods):
+    """R7 (d): transform / inverse_transform of the anchored transformers (with their own helpers, resolved along the MRO) never rebind
+    an attribute that fit / update bind: such an attribute is fitted state, and rebinding it in an apply-type call changes the estimator
+    (a later call, or another apply-type method in between, works from different state).  A store under a test of the same attribute
+    (lazy cache) is reported as info only.  Attributes that only apply-type methods write (scratch outputs) are not fitted state."""
+    n_cls = 0
+    for m in mods:
+        if not m.relpath.startswith("sktime/transformations/"):
+            continue
+        for c in classes_of(repo, m):
+            entries = [e for e in TRANSFORM_APPLY if repo.lookup_method(c, e) is not None]
+            if not entries or repo.lookup_method(c, "fit") is None:
+                continue
+            n_cls += 1
+            fitted = _self_attr_stores(repo, c, ("fit", "update"), stop=TRANSFORM_APPLY + ("fit_transform",))
+            bad = False
+            for e in entries:
+                stores = _self_attr_stores(repo, c, (e,), stop=("fit", "update", "fit_transform"))
+                for attr in sorted(set(stores) & set(fitted)):
+                    for k, fn, node, g in stores[attr]:
+                        loc = ctx.loc(k.module, node)
+                        if g:
+                            ctx.info("R7 not judged: %s.%s stores self.%s under a test of the same attribute (lazy cache) at %s" % (c.name, e, attr, loc))
+                            continue
+                        if _renormalises(node, attr) and any(n2 is node for _k, _f, n2, _g in fitted[attr]):
+                            # ``self.a = f(self.a)`` executed by fit and again, unchanged, by the apply-type call: the value is computed
+                            # from the stored one alone (no data argument); whether f is idempotent is a statement about f's values
+                            ctx.info("R7 not judged: %s.%s re-runs the normalising statement self.%s = f(self.%s) that fit also runs, at %s"
+                                     % (c.name, e, attr, attr, loc))
+                            continue
+                        bad = True
+                        ctx.violation("R7", "%s.%s:rebinds-fitted:self.%s" % (c.name, e, attr),
+                                      "%s.%s rebinds self.%s (in %s.%s), an attribute that fit/update bind: the call changes the fitted "
+                                      "estimator, so repeated or interleaved apply-type calls no longer agree" % (c.name, e, attr, k.name, fn.name),
+                                      loc, witness={"attribute": "self." + attr, "entry": e, "store_in": "%s.%s" % (k.name, fn.name)})
+            if not bad:
+                ctx.ok("R7", "%s:apply-rebinds-fitted" % c.name, "transform / inverse_transform rebind no attribute that fit / update bind "
+                       "(%d fitted attributes)" % len(fitted), ctx.loc(c.module, c.node), nontrivial=bool(fitted))
+    if n_cls < 15:
+        raise AnalysisError("C12-R7(d): only %d anchored transformer classes with fit and transform were located (expected >= 15)" % n_cls)
+
+
 GROWTH = ("inplace-method:append", "inplace-method:extend", "inplace-method:insert", "inplace-method:add", "augassign")
 
 
@@ -1721,7 +1832,9 @@ def run(ctx):
         "generator construction / draw in the anchored files has seed provenance self.random_state (through helper parameters, by call-site "
         "binding), no numpy.random.*/random.* global draw, no generator object passed into delayed(...). R4 no lambda/nested function held "
         "by an attribute of self. R5 Parallel(...)(tasks): tasks enumerate their source in order, results are consumed positionally and paired "
-        "with the same index as the sequences the tasks were built from. Not decided: equality of repeated results, n_jobs invariance of "
+        "with the same index as the sequences the tasks were built from. R6 derived/accumulated state is re-created by fit. R7 apply-type "
+        "methods do not write in place into objects stored on self, do not re-enter state-storing entries, and (transformers) do not rebind an "
+        "attribute that fit/update bind (self-attribute stores collected through self./super() helper calls along the MRO). Not decided: equality of repeated results, n_jobs invariance of "
         "values, pickle round trip, mutation through aliases stored on self by an earlier call.")
     ctx.assume("pandas/numpy/scipy/statsmodels/sklearn functions and methods that are not in the in-place table return new objects and do not "
                "write their arguments; pd.Series(...)/pd.DataFrame(...)/np.array(...) build new containers (DESIGN App. D, E4 table)")
@@ -1740,6 +1853,7 @@ def run(ctx):
     check_derived_state(ctx, repo, mods)
     check_fit_accumulation(ctx, repo, mods, eng)
     check_apply_state_writes(ctx, repo, mods, eng)
+    check_apply_rebinds_fitted(ctx, repo, mods)
     check_pickle(ctx, repo, mods)
     check_reduce(ctx, repo, mods)
     check_parallel(ctx, repo, mods)
